@@ -100,6 +100,9 @@ ASSUMPTIONS = [
     "evaluation mode, CPU, float64 (float32 for LinearBucketEncoder, whose greater_mask is hard-wired float32, "
     "and for a share of the other cases); footprints compared bit-exactly within one batch shape, cross-batch "
     "comparisons with tolerance 1e-9 (float64) / 2e-4 (float32) relative",
+    "parameter locality (column j reads its own parameter block) is a theorem (cell_fn_params_local); the "
+    "implementation's gradient footprints of different columns are measured disjoint and compared with the model "
+    "re-evaluated after changing every other block",
     "the output shape [batch, columns, channels] is a theorem (Props/C12.v encoder_output_shape) and compared with "
     "the implementation's on every case",
     "a strategy whose replacement value does not exist for the column -- default statistics of an entirely "
@@ -498,6 +501,40 @@ def real_params(case, enc):
     return None
 
 
+def densify(case):
+    """the batch with every missing cell replaced by some valid non-missing cell of its column (None if a column
+    has none): gradients are taken on it"""
+    st = case["stype"]
+    if st == "numerical" and any(s_["MEAN"] is None for s_ in case["stats"]):
+        return None                  # NaN statistics of an entirely missing column: NaN everywhere
+    out = []
+    for row in case["feat"]:
+        new = []
+        for j, cell in enumerate(row):
+            if not is_missing(st, cell):
+                new.append(cell)
+                continue
+            s_ = case["stats"][j]
+            if st == "numerical":
+                new.append(0.5)
+            elif st == "categorical":
+                if not s_["COUNT"][0]:
+                    return None
+                new.append(0)
+            elif st == "multicategorical":
+                new.append([0] if s_["MULTI_COUNT"][0] else [])
+            elif st == "timestamp":
+                if s_["YEAR_RANGE"][0] < 0:
+                    return None
+                new.append(list(s_["OLDEST_TIME"]))
+            else:
+                new.append([0.5 if v is None else v for v in cell])
+        out.append(new)
+    if st == "timestamp" and any(c[0] < case["stats"][j]["YEAR_RANGE"][0] for r in out for j, c in enumerate(r)):
+        return None
+    return out
+
+
 def run_enc(case):
     st = case["stype"]
     obs = {"stage": None}
@@ -540,6 +577,28 @@ def run_enc(case):
         except Exception as ex:
             foot.append({"cell": [r, j], "exc": C.exc_name(ex), "msg": str(ex)[:200]})
     obs["foot"] = foot
+    # parameter footprints by gradient: the parameters that out[:, j] depends on, for different columns j,
+    # are disjoint (column j reads its own parameter block only); post-module parameters are shared by design
+    if case["feat"] and case["ncols"] > 1 and how.get("tap", True):
+        try:
+            ps = [p_ for n_, p_ in enc.named_parameters() if not n_.startswith("post_module")]
+            dense = densify(case)        # no missing cell: NaN * 0 in autograd would smear over every block
+            if ps and dense is not None:
+                tap.seen = None
+                o_g = enc(to_lib(case, dense))
+                feet = []
+                for j in range(case["ncols"]):
+                    gs = torch.autograd.grad(o_g[:, j].sum(), ps, retain_graph=True, allow_unused=True)
+                    fp = set()
+                    for pi, g in enumerate(gs):
+                        if g is not None:
+                            nz = (g.reshape(g.shape[0], -1) != 0).any(dim=1).nonzero().flatten().tolist()
+                            fp |= {(pi, int(r)) for r in nz}
+                    feet.append(fp)
+                obs["param_disjoint"] = all(not (feet[a] & feet[b]) for a in range(len(feet))
+                                            for b in range(a + 1, len(feet)))
+        except Exception as ex:
+            obs["param_exc"] = C.exc_name(ex) + ": " + str(ex)[:120]
     # the same post-module handed over bare (not wrapped in the recording Tap): same output
     if case["post"] is not None and how.get("tap", True):
         try:
@@ -1082,6 +1141,8 @@ def coq_term(case, obs):
     strict = C.cbool(case.get("params", "noise") == "noise")
     shp = "(" + ", ".join(f"{int(v)}%nat" for v in obs["pre_shape"]) + ")"
     term = f"check_enc {strict} {cfg} {x} false {shp} {zeros} {C.clist(perts)} {imp}"
+    if obs.get("param_disjoint") is not None:
+        term = f"(({term}) && check_param_local {cfg} {x} {C.cbool(obs['param_disjoint'])})"
     rp = obs.get("real_params")
     if rp is not None:
         cfg2 = (f"(qconfig {coq_encoder_real(case, rp)} "
